@@ -356,8 +356,12 @@ class Mitm:
                 if w == 'replay':
                     ins = self.seen[d][0] if len(self.seen[d]) > 1 else data
                 elif w == 'foreign':
+                    # a packet of the OTHER direction - the one with the same
+                    # sequence number if that direction has got that far (so
+                    # that only the per-direction keys tell them apart)
                     o = 'sc' if d == 'cs' else 'cs'
-                    ins = self.seen[o][0] if self.seen[o] else bytes(48)
+                    ins = self.seen[o][n - 1] if len(self.seen[o]) >= n else \
+                        self.seen[o][0] if self.seen[o] else bytes(48)
                 else:
                     ins = bytes((7 * i + 3) % 256 for i in range(len(data)))
                 out = [ins] + out
